@@ -2279,6 +2279,11 @@ def _sym_comprehension(eng, st, node, kind, si, elt, saved, restore):
         # the item's own key (keys of one dict are distinct, so no entry overwrites another): a filtered / re-valued copy of m
         if not (isinstance(seq, ItemsSeq) and seq.name == "items" and isinstance(v, tuple) and len(v) == 2
                 and hasattr(v[0], "z") and z3.eq(z3.simplify(v[0].z), z3.simplify(seq.keys.at(j).z))):
+            if getattr(eng, "opaque_dictcomp", False):
+                from .engine import OPAQUE
+                eng.abstracted.add(f"{st.frame.fname}:dict-comprehension@{eng.line(st, node)}")
+                yield st, OPAQUE          # declared irrelevant by the unit (listed in its trusted base)
+                return
             raise Unsupported("dict comprehension over a symbolic sequence other than {k: f(k, v) for k, v in m.items() if c}")
         m = seq.m
         tv = type_of(v[1])
